@@ -151,12 +151,30 @@ fn test_time_span(c: &TimeSpan, cx: &mut Cx) -> CaseResult {
     // of 24h; years/months carry no clock time (documented: ignored).
     let delta = c.span.time_ns() + c.span.days() * NS_PER_DAY;
     let wrap = (base + delta).rem_euclid(NS_PER_DAY);
+    // Listed finding: Time::wrapping_add/sub(Span) accumulate in 64 bits.
+    // Only cases whose exact accumulation leaves the 64-bit range get the
+    // tagged signature; everything below 2^63 ns is judged normally.
+    let mag: i128 = (4..10).map(|i| c.span.u[i] as i128 * gen::UNIT_NS[i]).sum::<i128>() + base;
+    let tag = if mag >= (1i128 << 63) { ":exact-sum>=2^63ns" } else { "" };
     let g = t.wrapping_add(span);
-    ensure!(tod_of(g) == wrap, "time.wrapping_add(span)-wrong", "{ctx}: wrapping_add = {g} want tod {wrap}ns");
     let wrap_sub = (base - delta).rem_euclid(NS_PER_DAY);
-    let g = t.wrapping_sub(span);
-    ensure!(tod_of(g) == wrap_sub, "time.wrapping_sub(span)-wrong", "{ctx}: wrapping_sub = {g} want tod {wrap_sub}ns");
-    ensure!(tod_of(t + span) == wrap && tod_of(t - span) == wrap_sub, "time-operators-wrong", "{ctx}: operators disagree with wrapping arithmetic");
+    let gs = t.wrapping_sub(span);
+    if tag.is_empty() {
+        ensure!(tod_of(g) == wrap, "time.wrapping_add(span)-wrong", "{ctx}: wrapping_add = {g} want tod {wrap}ns");
+        ensure!(tod_of(gs) == wrap_sub, "time.wrapping_sub(span)-wrong", "{ctx}: wrapping_sub = {gs} want tod {wrap_sub}ns");
+        ensure!(tod_of(t + span) == wrap && tod_of(t - span) == wrap_sub, "time-operators-wrong", "{ctx}: operators disagree with wrapping arithmetic");
+    } else {
+        // soft: keep evaluating the checked/saturating clauses of this case
+        if tod_of(g) != wrap {
+            cx.soft_fail(format!("time.wrapping_add(span)-wrong{tag}"), format!("{ctx}: wrapping_add = {g} want tod {wrap}ns"));
+        }
+        if tod_of(gs) != wrap_sub {
+            cx.soft_fail(format!("time.wrapping_sub(span)-wrong{tag}"), format!("{ctx}: wrapping_sub = {gs} want tod {wrap_sub}ns"));
+        }
+        if tod_of(t + span) != wrap || tod_of(t - span) != wrap_sub {
+            cx.soft_fail(format!("time-operators-wrong{tag}"), format!("{ctx}: operators disagree with wrapping arithmetic"));
+        }
+    }
     // checked: units above hours are refused (documented); otherwise Err
     // exactly when the result leaves the day
     let has_big = c.span.u[..4].iter().any(|&x| x != 0);
